@@ -4,15 +4,18 @@ use asca::{ASCAError, Error, RuleGroup};
 use serde_json::{json, Value};
 
 /// (fault line, needs these words to fire (runtime) or None (syntax))
-const RULE_FAULTS: [&str; 53] = [
+const RULE_FAULTS: [&str; 65] = [
     // syntax
     "a >", "> a", "a > e / _ _", "a > e / ##_", "a > e / _#s", "[+foo] > a", "a > [+", "a > e / (C,2:1)_", "a > e ;x", "a => ", "a > e / p", "{a > e", "a > e / _)", "a > [tone:12345]", "a > e / :{ _a",
     "* > *", "* > &", "a > * e", "a > & e", "a = e", "C=x > 1", "a:[+long > e", "a > e | ", "a, b > c, d, e", "a > e / _, b_, c_", "a > (e)", "a > ...", "a > e / _,", "a > [+voice", "a > e / _ / _", "a > %:[+voice]", "a > e / [tone:5]:", "& > a",
     // runtime (fire on /pa.ta/ or /a/)
     "[] > [+place]", "[] > [-root]", "a > [-long, +overlong]", "a > [-stress, +sec.stress]", "% > a", "%:[+stress, -long] > a / _#", "a > 1", "* > a", "* > a / :{ _#, #_ }:", "* > [+voice] / _#", "{p,t} > {b}", "a > {e}", "a % > &", "$ % > &", "a > [βvoice]", "a > [-αvoice]", "a > ⟨C⟩", "a > ⟨...⟩", "a > *", "% > * / _#",
+    // two-position runtime errors whose first element is much wider than the second (the marker line must still fit the line)
+    "%:[+stress] > a", "%:[+stress] > a / _#", "%:[+stress, -sec.stress] > a", "⟨ta⟩:[+stress] > a", "%:[tone: 51] > e", "%:[+stress] > a:[+long, -nasal]", "{p,t}:[-voice, -long] > {b}", "a:[-long, -nasal] > {e}",
+    "a:[-long, -stress] % > &", "$ %:[-sec.stress] > &", "a:[-long, -nasal, -stress] > 1", "a:[-long, -nasal, -stress] > [-αvoice]",
 ];
 const FILLER: [&str; 6] = ["ɮ > l", ";; a comment line", "", "ŋʘ > ŋǀ / _#", "   ", "q > k | _#"];
-const WORDS: [&str; 3] = ["pa.ta", "a", "ˈta"];
+const WORDS: [&str; 4] = ["pa.ta", "a", "ˈta", "ta51"];
 
 fn strip(s: &str) -> String { s.to_string() }
 
@@ -65,6 +68,35 @@ fn check_rule_fault(groups: &[RuleGroup], g: usize, l: usize, fault: &str, a: &m
     }
 }
 
+/// None = fault did not trigger (or crashed: C02's); Some(None) = located; Some(Some(v)) = violation
+fn check_alias_fault(words: &[String], into: &[String], from: &[String], fault: &str, pos: usize, is_into: bool) -> Option<Option<Viol>> {
+    let res = guarded(2_000_000, || asca::run(&[], words, into, from));
+    let case = json!({"kind": "alias", "into": into, "from": from, "fault": fault, "pos": pos, "is_into": is_into, "words": words});
+    let err = match res { Out::Ok(Err(e)) => e, _ => return None };
+    if !matches!(err, Error::AliasSyn(_) | Error::AliasRun(_)) { return Some(Some(Viol { key: format!("alias-wrong-error-kind|{}", fault), desc: format!("alias fault `{}` produced {:?}", fault, err), case })); }
+    let shown = match guarded(1_000_000, || err.format_alias_error(into, from)) { Out::Ok(s) => s, o => return Some(Some(Viol { key: format!("alias-format-panics|{}", fault), desc: o.crash_desc().unwrap(), case })) };
+    let kind = if is_into { "deromaniser" } else { "romaniser" };
+    let want = format!("@ {}, line {}", kind, pos + 1);
+    let bars: Vec<&str> = shown.lines().filter_map(|l| l.strip_prefix("    |     ")).collect();
+    let caret_ok = bars.get(1).map(|c| c.trim_end().chars().count() <= fault.chars().count() + 1 && c.contains('^')).unwrap_or(false);
+    if !shown.contains(&want) { Some(Some(Viol { key: format!("alias-wrong-line|{}", fault), desc: format!("alias fault `{}` planted as {} line {} is shown as: {}", fault, kind, pos + 1, shown.replace('\n', " \\n ")), case })) }
+    else if bars.first().copied() != Some(fault) { Some(Some(Viol { key: format!("alias-quotes-other-line|{}", fault), desc: format!("quotes {:?}", bars.first()), case })) }
+    else if !caret_ok { Some(Some(Viol { key: format!("alias-caret-outside-line|{}", fault), desc: format!("caret line {:?} does not fit `{}`", bars.get(1), fault), case })) }
+    else { Some(None) }
+}
+
+fn check_word_fault(ws: &[String], fault: &str) -> Option<Option<Viol>> {
+    let case = json!({"kind": "word", "words": ws, "fault": fault});
+    let err = match guarded(2_000_000, || asca::run(&[group(&["a > e"])], ws, &[], &[])) { Out::Ok(Err(e)) => e, _ => return None };
+    if !matches!(err, Error::WordSyn(_) | Error::WordRun(_)) { return Some(Some(Viol { key: format!("word-wrong-error-kind|{}", fault), desc: format!("word fault `{}` produced {:?}", fault, err), case })); }
+    let shown = match guarded(1_000_000, || err.format_word_error(ws)) { Out::Ok(s) => s, o => return Some(Some(Viol { key: format!("word-format-panics|{}", fault), desc: o.crash_desc().unwrap(), case })) };
+    let bars: Vec<&str> = shown.lines().filter_map(|l| l.strip_prefix("    |     ")).collect();
+    // the word parser normalises ' , : ; before reporting; the faults here contain none of them
+    if bars.first().copied() != Some(fault) { return Some(Some(Viol { key: format!("word-names-other-word|{}", fault), desc: format!("word fault `{}` is shown as: {}", fault, shown.replace('\n', " \\n ")), case })); }
+    if let Some(c) = bars.get(1) { if c.trim_end().chars().count() > fault.chars().count() + 1 { return Some(Some(Viol { key: format!("word-caret-outside|{}", fault), desc: format!("caret line {:?} does not fit `{}`", c, fault), case })); } }
+    Some(None)
+}
+
 fn base_projects() -> Vec<Vec<Vec<&'static str>>> {
     vec![
         vec![vec![FILLER[0]]],
@@ -75,7 +107,7 @@ fn base_projects() -> Vec<Vec<Vec<&'static str>>> {
 
 pub fn run() -> i32 {
     let mut r = Report::new("C17");
-    r.rule = "fault catalogue of 53 rule faults (33 syntax, 20 runtime) covering the RuleSyntaxError / RuleRuntimeError variants reachable from text, planted into 3 valid rule-group lists (1-3 groups x 1-3 lines, with blank, whitespace-only and comment lines) at every (group, line) position in three ways (replace the line, insert before, insert after); 14 alias faults at every line of a two-line deromaniser and romaniser; 8 word faults at every index of a 4-word list. Oracle: run is Err, the matching formatter does not panic, the reported rule group / line (alias kind / line, word) is the planted one and exists, the quoted line is the faulty line, and the caret line fits in [0, chars(line)+1]. Non-trivial = error located at the planted position.".into();
+    r.rule = "fault catalogue of 65 rule faults (33 syntax, 32 runtime, 12 of them two-position errors with a wide first element) covering the RuleSyntaxError / RuleRuntimeError variants reachable from text, planted into 3 valid rule-group lists (1-3 groups x 1-3 lines, with blank, whitespace-only and comment lines) at every (group, line) position in three ways (replace the line, insert before, insert after); 14 alias faults at every line of a two-line deromaniser and romaniser; 8 word faults at every index of a 4-word list. Oracle: run is Err, the matching formatter does not panic, the reported rule group / line (alias kind / line, word) is the planted one and exists, the quoted line is the faulty line, and the caret line fits in [0, chars(line)+1]. Non-trivial = error located at the planted position.".into();
     let mut a = Acc::default();
     for proj in base_projects() {
         for g in 0..proj.len() { for l in 0..proj[g].len() { for mode in 0..3 { for fault in RULE_FAULTS {
@@ -99,19 +131,7 @@ pub fn run() -> i32 {
             let (mut into, mut from) = (valid_into.clone(), valid_from.clone());
             if is_into { into.insert(pos, fault.to_string()); } else { from.insert(pos, fault.to_string()); }
             al_cases += 1;
-            let res = guarded(2_000_000, || asca::run(&[], &words, &into, &from));
-            let case = json!({"kind": "alias", "into": into, "from": from, "fault": fault, "pos": pos});
-            let err = match res { Out::Ok(Err(e)) => e, Out::Ok(Ok(_)) => { a.not_triggered += 1; continue; } _ => continue };
-            if !matches!(err, Error::AliasSyn(_) | Error::AliasRun(_)) { r.viol(Viol { key: format!("alias-wrong-error-kind|{}", fault), desc: format!("alias fault `{}` produced {:?}", fault, err), case }); continue; }
-            let shown = match guarded(1_000_000, || err.format_alias_error(&into, &from)) { Out::Ok(s) => s, o => { r.viol(Viol { key: format!("alias-format-panics|{}", fault), desc: o.crash_desc().unwrap(), case }); continue; } };
-            let kind = if is_into { "deromaniser" } else { "romaniser" };
-            let want = format!("@ {}, line {}", kind, pos + 1);
-            let bars: Vec<&str> = shown.lines().filter_map(|l| l.strip_prefix("    |     ")).collect();
-            let caret_ok = bars.get(1).map(|c| c.trim_end().chars().count() <= fault.chars().count() + 1 && c.contains('^')).unwrap_or(false);
-            if !shown.contains(&want) { r.viol(Viol { key: format!("alias-wrong-line|{}", fault), desc: format!("alias fault `{}` planted as {} line {} is shown as: {}", fault, kind, pos + 1, shown.replace('\n', " \\n ")), case }); }
-            else if bars.first().copied() != Some(*fault) { r.viol(Viol { key: format!("alias-quotes-other-line|{}", fault), desc: format!("quotes {:?}", bars.first()), case }); }
-            else if !caret_ok { r.viol(Viol { key: format!("alias-caret-outside-line|{}", fault), desc: format!("caret line {:?} does not fit `{}`", bars.get(1), fault), case }); }
-            else { al_ok += 1; }
+            match check_alias_fault(&words, &into, &from, fault, pos, is_into) { Some(None) => al_ok += 1, Some(Some(v)) => r.viol(v), None => a.not_triggered += 1 }
         } }
     }
     r.boxes.push(json!({"box": "alias faults x positions", "cases": al_cases, "located": al_ok}));
@@ -122,15 +142,7 @@ pub fn run() -> i32 {
         let mut ws: Vec<String> = vec!["pa.ta".into(), "ˈta".into(), "a".into()];
         ws.insert(pos, fault.to_string());
         w_cases += 1;
-        let case = json!({"kind": "word", "words": ws, "fault": fault});
-        let err = match guarded(2_000_000, || asca::run(&[group(&["a > e"])], &ws, &[], &[])) { Out::Ok(Err(e)) => e, Out::Ok(Ok(_)) => { a.not_triggered += 1; continue; } _ => continue };
-        if !matches!(err, Error::WordSyn(_) | Error::WordRun(_)) { r.viol(Viol { key: format!("word-wrong-error-kind|{}", fault), desc: format!("word fault `{}` produced {:?}", fault, err), case }); continue; }
-        let shown = match guarded(1_000_000, || err.format_word_error(&ws)) { Out::Ok(s) => s, o => { r.viol(Viol { key: format!("word-format-panics|{}", fault), desc: o.crash_desc().unwrap(), case }); continue; } };
-        let bars: Vec<&str> = shown.lines().filter_map(|l| l.strip_prefix("    |     ")).collect();
-        // the word parser normalises ' , : ; before reporting; the faults here contain none of them
-        if bars.first().copied() != Some(fault) { r.viol(Viol { key: format!("word-names-other-word|{}", fault), desc: format!("word fault `{}` is shown as: {}", fault, shown.replace('\n', " \\n ")), case }); continue; }
-        if let Some(c) = bars.get(1) { if c.trim_end().chars().count() > fault.chars().count() + 1 { r.viol(Viol { key: format!("word-caret-outside|{}", fault), desc: format!("caret line {:?} does not fit `{}`", c, fault), case }); continue; } }
-        w_ok += 1;
+        match check_word_fault(&ws, fault) { Some(None) => w_ok += 1, Some(Some(v)) => r.viol(v), None => a.not_triggered += 1 }
     } }
     r.boxes.push(json!({"box": "word faults x positions", "cases": w_cases, "located": w_ok}));
     r.evaluations = a.evals + al_cases + w_cases; r.transitions = r.evaluations * 2; r.validated = a.located + al_ok + w_ok; r.nontrivial = r.validated;
@@ -148,6 +160,16 @@ pub fn replay(case: &Value) -> Result<String, String> {
             check_rule_fault(&groups, case["g"].as_u64().unwrap_or(0) as usize, case["l"].as_u64().unwrap_or(0) as usize, case["fault"].as_str().unwrap_or(""), &mut a);
             match a.viols.first() { Some(v) => Err(v.desc.clone()), None => Ok("error located at the planted line".into()) }
         }
-        _ => Err("alias / word fault: re-run ./check C17 (runs in under a second)".into()),
+        Some("alias") => {
+            let sv = |k: &str| -> Vec<String> { case[k].as_array().map(|v| v.iter().map(|x| x.as_str().unwrap_or("").to_string()).collect()).unwrap_or_default() };
+            let words = if case["words"].is_array() { sv("words") } else { vec!["pa.ta".to_string(), "xa".to_string()] };
+            let is_into = case["is_into"].as_bool().unwrap_or_else(|| sv("into").len() > 2);
+            match check_alias_fault(&words, &sv("into"), &sv("from"), case["fault"].as_str().unwrap_or(""), case["pos"].as_u64().unwrap_or(0) as usize, is_into) { Some(Some(v)) => Err(v.desc), Some(None) => Ok("alias error located at the planted line".into()), None => Ok("the fault did not raise an error".into()) }
+        }
+        Some("word") => {
+            let ws: Vec<String> = case["words"].as_array().map(|v| v.iter().map(|x| x.as_str().unwrap_or("").to_string()).collect()).unwrap_or_default();
+            match check_word_fault(&ws, case["fault"].as_str().unwrap_or("")) { Some(Some(v)) => Err(v.desc), Some(None) => Ok("word error names the faulty word".into()), None => Ok("the fault did not raise an error".into()) }
+        }
+        _ => Err("unknown case".into()),
     }
 }
